@@ -38,7 +38,7 @@ func scteViewDesc(s scte35.SCTE35, d scte35.SegmentationDescriptor) Val {
 		VBool(d.IsArchiveAllowed()), VU(uint64(d.DeviceRestrictions())), Val{K: 2, L: comps},
 		VU(uint64(d.UPIDType())), VB(d.UPID()), Val{K: 2, L: mid}, VU(uint64(d.TypeID())),
 		VU(uint64(d.SegmentNumber())), VU(uint64(d.SegmentsExpected())), VBool(d.HasSubSegments()),
-		VU(uint64(d.SubSegmentNumber())), VU(uint64(d.SubSegmentsExpected())))
+		VU(uint64(d.SubSegmentNumber())), VU(uint64(d.SubSegmentsExpected())), VU(uint64(d.SegmentNum())))
 }
 
 func scteView(s scte35.SCTE35) Val {
